@@ -17,6 +17,8 @@ pub struct Mon {
     under: Option<u128>,
     settlements_nonzero: u64,
     charged_nonzero: u64,
+    /// harness model: sum of the reference fractions of all successful settlements, per vAMM
+    phi_model: Vec<S>,
 }
 
 impl Monitor for Mon {
@@ -40,6 +42,39 @@ impl Monitor for Mon {
     }
     fn after(&mut self, w: &World, s: &Step, out: &mut Outcome) -> Option<Violation> {
         let d = w.d;
+        if self.phi_model.len() != w.vamms.len() {
+            self.phi_model = s.pre.v.iter().map(|v| v.cpf).collect();
+        }
+        let r = self.after_inner(w, s, out);
+        if r.is_some() {
+            return r;
+        }
+        // the cumulative premium fraction moves only by settlements (history invariant)
+        for v in 0..w.vamms.len() {
+            if s.post.v[v].cpf != self.phi_model[v] {
+                return Some(
+                    Violation::new(
+                        "cumulative_fraction_changed_outside_settlement",
+                        format!("after {} (ok={}) the cumulative premium fraction of vamm {} is {} but the settlements so far add up to {}", s.act.name(), s.res.ok, v, s.post.v[v].cpf, self.phi_model[v]),
+                    )
+                    .with("act", s.act.name())
+                    .with("effect", format!("{:?}", s.effect)),
+                );
+            }
+        }
+        out.count("cumulative_fraction_invariant_checks");
+        let _ = d;
+        None
+    }
+    fn end(&mut self, _w: &World, out: &mut Outcome) {
+        out.nontrivial = self.settlements_nonzero >= 1 && self.charged_nonzero >= 1;
+        out.summary = Some(json!({"nonzero_settlements": self.settlements_nonzero, "charged_operations_with_nonzero_funding": self.charged_nonzero}));
+    }
+}
+
+impl Mon {
+    fn after_inner(&mut self, w: &World, s: &Step, out: &mut Outcome) -> Option<Violation> {
+        let d = w.d;
         match s.act {
             Act::PayFunding { v, .. } => {
                 let st0 = &s.pre.v[*v].state;
@@ -60,10 +95,16 @@ impl Monitor for Mon {
                 }
                 let (tw, un) = match (self.twap, self.under) {
                     (Some(a), Some(b)) => (a, b),
-                    _ => return None,
+                    _ => {
+                        // no reference available: follow the observed value (counted)
+                        out.count("settlement_without_reference");
+                        self.phi_model[*v] = s.post.v[*v].cpf;
+                        return None;
+                    }
                 };
                 let frac = S::pos(tw).sub(&S::pos(un)).mul(&S::pos(period as u128)).div_trunc(&S::pos(86400));
                 let dphi = s.post.v[*v].cpf.sub(&s.pre.v[*v].cpf);
+                self.phi_model[*v] = self.phi_model[*v].add(&frac);
                 if dphi != frac {
                     return Some(Violation::new(
                         "premium_fraction",
@@ -191,6 +232,52 @@ impl Monitor for Mon {
                     }
                 }
             }
+            Act::Close { t, v, .. } if s.res.ok && s.effect == Effect::PartialClosed => {
+                if let (Some(pr), Some(p1)) = (&self.pre_ref, s.post.pos[*v][*t].as_ref()) {
+                    let phi = s.pre.v[*v].cpf;
+                    out.count("partial_close_checks");
+                    if S::from_integer(p1.last_updated_premium_fraction) != phi {
+                        return Some(Violation::new("checkpoint_not_moved", format!("partial close: checkpoint {} != current fraction {}", p1.last_updated_premium_fraction, phi)).with("effect", "PartialClosed"));
+                    }
+                    let closed = pr.size - p1.size.value.u128();
+                    let realised = pr.pnl_spot()?.mul(&S::pos(closed)).div_trunc(&S::pos(pr.size));
+                    let exp = S::pos(pr.margin).add(&realised).sub(&pr.funding);
+                    if S::pos(p1.margin.u128()) != exp {
+                        return Some(
+                            Violation::new(
+                                "funding_not_charged_on_trade",
+                                format!("partial close: stored margin {} -> {} but margin + realised {} - funding owed {} = {}", pr.margin, p1.margin, realised, pr.funding, exp),
+                            )
+                            .with("effect", "PartialClosed")
+                            .with("funding_zero", pr.funding.is_zero()),
+                        );
+                    }
+                    if !pr.funding.is_zero() {
+                        self.charged_nonzero += 1;
+                        out.count("charged_nonzero");
+                    }
+                }
+            }
+            Act::Withdraw { t, v, amount } if s.res.ok => {
+                if let (Some(pr), Some(p1)) = (&self.pre_ref, s.post.pos[*v][*t].as_ref()) {
+                    out.count("withdraw_checks");
+                    if S::from_integer(p1.last_updated_premium_fraction) != s.pre.v[*v].cpf {
+                        return Some(Violation::new("checkpoint_not_moved", format!("withdraw: checkpoint {} != current fraction {}", p1.last_updated_premium_fraction, s.pre.v[*v].cpf)).with("effect", "withdraw"));
+                    }
+                    let exp = S::pos(pr.margin).sub(&S::pos(*amount)).sub(&pr.funding);
+                    if S::pos(p1.margin.u128()) != exp {
+                        return Some(
+                            Violation::new("funding_not_charged_on_trade", format!("withdraw {}: stored margin {} -> {} but expected {} (funding owed {})", amount, pr.margin, p1.margin, exp, pr.funding))
+                                .with("effect", "withdraw")
+                                .with("funding_zero", pr.funding.is_zero()),
+                        );
+                    }
+                    if !pr.funding.is_zero() {
+                        self.charged_nonzero += 1;
+                        out.count("charged_nonzero");
+                    }
+                }
+            }
             Act::Liquidate { .. } if s.res.ok && s.effect == Effect::LiqFull => {
                 // payout with funding is checked by C06; here only count
                 if let Some(pr) = &self.pre_ref {
@@ -203,10 +290,6 @@ impl Monitor for Mon {
         }
         None
     }
-    fn end(&mut self, _w: &World, out: &mut Outcome) {
-        out.nontrivial = self.settlements_nonzero >= 1 && self.charged_nonzero >= 1;
-        out.summary = Some(json!({"nonzero_settlements": self.settlements_nonzero, "charged_operations_with_nonzero_funding": self.charged_nonzero}));
-    }
 }
 
 pub fn prop() -> HistProp {
@@ -217,8 +300,7 @@ pub fn prop() -> HistProp {
     w.open = 30;
     w.squeeze = 2;
     w.liq_weakest = 4;
-    let mut p = CfgProfile::general();
-    p.fluct = false;
+    let p = CfgProfile::general();
     HistProp {
         id: "C11",
         level: "exploration",
@@ -228,7 +310,7 @@ pub fn prop() -> HistProp {
         max_ops: (40, 100),
         cases: (12_000, 400_000),
         make: || Box::new(Mon::default()),
-        rule: "engine histories rich in PayFunding calls on block-time schedules around next_funding_time (1 s before, exactly at, half a period / a period / a day later, two calls in one block), oracle above / below / equal to the vAMM TWAP, net position long / short / flat, interleaved trades, deposits, withdrawals, closes and liquidations. Successful PayFunding: now >= next_funding_time(pre); cumulative fraction moves by trunc((TwapPrice{i} - UnderlyingTwapPrice{i}) * period / 86400) with both read in the pre-state; next_funding_time(post) >= now + period/2; with P = trunc(T*fraction/D) exactly min(P, vault) moves vault->fund (P>0) or |P| fund->vault (P<0) and no other balance moves. Owner trades (increase / reduce): checkpoint = current fraction and stored margin = max(0, M + delta - F); reversal (cw20): wallet delta = (M + PnL - F) - new margin - fees. Non-trivial: >= 1 settlement with non-zero fraction and payment and >= 1 charged owner operation with F != 0. Distinct by digest of (cfg, ops).",
+        rule: "engine histories rich in PayFunding calls on block-time schedules around next_funding_time (1 s before, exactly at, half a period / a period / a day later, two calls in one block), oracle above / below / equal to the vAMM TWAP, net position long / short / flat, interleaved trades, deposits, withdrawals, closes and liquidations. Successful PayFunding: now >= next_funding_time(pre); cumulative fraction moves by trunc((TwapPrice{i} - UnderlyingTwapPrice{i}) * period / 86400) with both read in the pre-state; next_funding_time(post) >= now + period/2; with P = trunc(T*fraction/D) exactly min(P, vault) moves vault->fund (P>0) or |P| fund->vault (P<0) and no other balance moves. After every step the engine's CumulativePremiumFraction must equal the sum of the reference fractions of the settlements so far (it moves by settlements only). Owner trades (increase / reduce / partial close / withdraw): checkpoint = current fraction and stored margin = M + delta - F (floored at 0 on trades); reversal (cw20): wallet delta = (M + PnL - F) - new margin - fees. Non-trivial: >= 1 settlement with non-zero fraction and payment and >= 1 charged owner operation with F != 0. Distinct by digest of (cfg, ops).",
         assumptions: &["withdraw / close / full-liquidation charges are asserted by C05 / C04 / C06 with the same F; the reversal wallet clause is evaluated on cw20 deployments (native reversals are C13's subject)"],
         eval_counter: None,
     }
